@@ -543,10 +543,19 @@ def conservation_per_path(rec, engine):
             lhs = sum((c[s] * I.toreal(after[s * nc + i]) for s in range(ns) for i in range(nc) if c[s]), z3.RealVal(0))
             rhs = sum((c[s] * I.toreal(before[s * nc + i]) for s in range(ns) for i in range(nc) if c[s]), z3.RealVal(0))
             name = "%s: total of %s unchanged by one step" % (engine, " + ".join("%d %s" % (c[s], labels[s]) for s in range(ns) if c[s]))
+            def _replayed(m, c=c, lhs=lhs, rhs=rhs):
+                if audit_finds(system, engine, "conservation"):
+                    return True
+                if engine == "euler":
+                    from .enginelegs import replay_euler_conservation
+                    dev = lhs - rhs
+                    mag = z3.If(rhs >= 0, rhs, -rhs)
+                    return replay_euler_conservation(I, m, c, z3.Or(dev > 1 + mag / 1000, -dev > 1 + mag / 1000))
+                return False
             _prove(rec, I, name, lhs == rhs, desc,
-                   lambda m, c=c: rec.violation("conservation:%s" % engine, "one %s step changes the conserved total %s (%s)" % (engine, c, desc),
+                   lambda m, c=c, _r=_replayed: rec.violation("conservation:%s" % engine, "one %s step changes the conserved total %s (%s)" % (engine, c, desc),
                                                 {"structure": desc, "vector": c, "model": str(m)[:500]},
-                                                replayed=audit_finds(system, engine, "conservation")))
+                                                replayed=_r(m)))
         rec.extra.setdefault("null_vectors_checked", 0)
         rec.extra["null_vectors_checked"] += len(basis)
     return per_path
